@@ -11,6 +11,8 @@ import (
 	"go/types"
 	"strconv"
 	"strings"
+	"unicode"
+	"unicode/utf8"
 )
 
 type externalFn func(fr *frame, args []value) value
@@ -639,4 +641,48 @@ func extUnquote(fr *frame, args []value) value {
 		return tuple{"", fr.errValue(err.Error())}
 	}
 	return tuple{v, iface{}}
+}
+
+// ---- unicode / utf8 / bytes helpers with concretisation ------------------------------
+//
+// Pure functions of one rune or byte: a symbolic argument is concretised (the path
+// forks over the feasible values of the argument, at most 256 for a byte) and the real
+// function is applied to each value.
+
+func runeArg(fr *frame, v value) rune {
+	switch x := v.(type) {
+	case sym:
+		return rune(fr.path().concretize(fr, x))
+	case int32:
+		return x
+	}
+	panic(fmt.Sprintf("rune argument %T", v))
+}
+
+func init() {
+	pred := func(f func(rune) bool) externalFn {
+		return func(fr *frame, args []value) value { return f(runeArg(fr, args[0])) }
+	}
+	conv := func(f func(rune) rune) externalFn {
+		return func(fr *frame, args []value) value { return f(runeArg(fr, args[0])) }
+	}
+	for k, v := range map[string]externalFn{
+		"unicode.IsLetter":       pred(unicode.IsLetter),
+		"unicode.IsDigit":        pred(unicode.IsDigit),
+		"unicode.IsNumber":       pred(unicode.IsNumber),
+		"unicode.IsSpace":        pred(unicode.IsSpace),
+		"unicode.IsUpper":        pred(unicode.IsUpper),
+		"unicode.IsLower":        pred(unicode.IsLower),
+		"unicode.IsPunct":        pred(unicode.IsPunct),
+		"unicode.IsControl":      pred(unicode.IsControl),
+		"unicode.IsPrint":        pred(unicode.IsPrint),
+		"unicode.IsGraphic":      pred(unicode.IsGraphic),
+		"unicode.IsSymbol":       pred(unicode.IsSymbol),
+		"unicode.ToLower":        conv(unicode.ToLower),
+		"unicode.ToUpper":        conv(unicode.ToUpper),
+		"unicode/utf8.RuneLen":   func(fr *frame, args []value) value { return utf8.RuneLen(runeArg(fr, args[0])) },
+		"unicode/utf8.ValidRune": func(fr *frame, args []value) value { return utf8.ValidRune(runeArg(fr, args[0])) },
+	} {
+		externals[k] = v
+	}
 }
